@@ -71,6 +71,24 @@ CHECKS = {
                       "replaces/removes the record and is relayed once, not back; any delivery order of 2-3 messages ends as the latest one alone.",
         "level_note": _TRUST,
     },
+    "C12": {
+        "pkgs": ["./pkg/netceptor"],
+        "bounds": {
+            "quick": "regex rules: 59 patterns of a bounded grammar over {a,b,.,[ab],[^a],(?i),*,+,?,|,(),^,$} x every ASCII subject of 0..3 bytes x 4 fields; "
+                     "literal rules: 2 rules, 5 field subsets each, arbitrary literals, 3 actions, 3 key spellings, 6 representative packets; malformed: 12 "
+                     "concrete shapes + every unknown key of 1..11 bytes + every unknown action of 1..6 bytes",
+            "thorough": "as quick with 247 patterns, subjects of 0..4 bytes; 2 rules with every field subset, and 3 rules with 3 subsets",
+        },
+        "common": {"maxpaths": 400000},
+        "assumptions": ["subject strings and symbolic keys/actions are ASCII (bytes < 0x80)", "rule literals do not start with '/' in the literal-rule harness"],
+        "outside": ["the regexp matcher executing its compiled program faithfully (the program itself is produced by the real regexp/syntax)",
+                    "YAML decoding of the rule list", "non-ASCII names (multi-byte runes)", "subjects longer than the bound"],
+        "level_text": "Bounded symbolic execution of ParseFirewallRules/buildComps/regexCompare/firewallRule and the rule loop of handleMessageData: "
+                      "a /regex/ rule matches exactly the strings wholly in the pattern's language (the pattern string the code builds is compiled by "
+                      "the real regexp/syntax and simulated symbolically); the node acts on every packet, including notices it originates, as the "
+                      "first matching rule dictates; uninterpretable rule data is refused.",
+        "level_note": _TRUST,
+    },
     "C10": {
         "pkgs": ["./pkg/netceptor"],
         "bounds": "step lemma for all 256 budgets, arbitrary routing table (no route / via B / via C / via unconnected X) for source and "
